@@ -199,6 +199,20 @@ def _locals_of(fn: ast.AST) -> Set[str]:
     return out
 
 
+def _empty_display(e: ast.AST) -> bool:
+    return isinstance(e, (ast.List, ast.Tuple)) and not e.elts
+
+
+def _never_mutated(fn: ast.AST, name: str) -> bool:
+    """The parameter is only read: no method is called on it, nothing is stored into it."""
+    for n in ast.walk(fn):
+        if isinstance(n, ast.Attribute) and isinstance(n.value, ast.Name) and n.value.id == name:
+            return False
+        if isinstance(n, ast.Subscript) and isinstance(n.value, ast.Name) and n.value.id == name and isinstance(n.ctx, (ast.Store, ast.Del)):
+            return False
+    return True
+
+
 class _Helper:
     def __init__(self, node: ast.FunctionDef, kind: str, cls: Optional[str], module: str, owner: Optional[ast.AST] = None):
         self.node = node
@@ -830,7 +844,7 @@ def _inline_helpers(mod: str, tree: ast.Module, all_helpers, trees, pkgs: Set[st
                             pre: List[ast.stmt] = []
                             mapping: Dict[str, ast.expr] = {}
                             for p_, a in b.items():
-                                if _simple(a) and p_ not in h.locals:
+                                if (_simple(a) or (_empty_display(a) and _never_mutated(h.node, p_))) and p_ not in h.locals:
                                     mapping[p_] = a
                                 else:
                                     tmp = p_ + suffix
